@@ -41,7 +41,7 @@ Inductive op :=
   | OGet (i : nat) | OGetByName (s : str) | OSearch (kind : nat) (arg : option str)
   | OPartitions | OP2L (b : bits) | ORf (k : nat) | ORfNorm (k : nat) | OWrf (k : nat) | OKf (k : nat)
   | OCmpTopo (k : nat) | OCmpBranch (k : nat) (tips : bool) | ODm | ODmr | ODmStore
-  | OToNewick | OToFmt (f : nformat) | OToNexus | OLayout | ORtNewick | ORtFmt (f : nformat)
+  | OToNewick | OToFmt (f : nformat) | OToNexus | OLayout | ORtNewick | ORtFmt (f : nformat) | OReparse (k : nat)
   | OTril (n i j : nat) | ORowvec (n k : nat) | OTrilN (i j : N) | ORowvecN (k : N)
   | OMSel (k : nat) | OMNew (taxa : list str) (vals : list xq) | OMWithSize (n : nat)
   | OMSetTaxa (taxa : list str) | OMGet (a b : str) | OMSet (a b : str) (v : xq) | OMTaxaIndex (a : str)
@@ -58,7 +58,8 @@ Definition tree_at (s : st) (k : nat) : tree := nth k (trees s) empty_tree.
 Definition set_tree_at (s : st) (k : nat) (t : tree) : st :=
   mkSt (replace_nth k t (trees s)) (cur s) (mats s) (mcur s).
 Definition set_cur_tree (s : st) (t : tree) : st := set_tree_at s (cur s) t.
-Definition set_cur_arena (s : st) (a : arena) : st := set_cur_tree s (with_nodes (cur_tree s) a).
+(* every mutable access to the tree invalidates the cached leaf index and bipartitions (fix F15) *)
+Definition set_cur_arena (s : st) (a : arena) : st := set_cur_tree s (tree_of a).
 Definition cur_mat (s : st) : dmat := nth (mcur s) (mats s) empty_mat.
 Definition set_cur_mat (s : st) (m : dmat) : st :=
   mkSt (trees s) (cur s) (replace_nth (mcur s) m (mats s)) (mcur s).
@@ -304,6 +305,18 @@ Definition run_op (s : st) (o : op) : res * st :=
       | Ok r =>
           match from_newick parse_f64 (flatten_r r) with
           | Ok a' => (res_of (to_newick a') (fun r2 => [TRs r] ++ dump_arena a' ++ [TRs r2]), s)
+          | other => (res_of other (fun _ => []), s)
+          end
+      | other => (res_of other (fun _ => []), s)
+      end
+  | OReparse k =>
+      (* tree register k := from_newick (to_newick current) *)
+      match to_newick a with
+      | Ok r =>
+          match from_newick parse_f64 (flatten_r r) with
+          | Ok a' =>
+              let ts := trees s ++ repeat empty_tree (S k - length (trees s)) in
+              (ROk [], mkSt (replace_nth k (tree_of a') ts) (cur s) (mats s) (mcur s))
           | other => (res_of other (fun _ => []), s)
           end
       | other => (res_of other (fun _ => []), s)
